@@ -31,8 +31,8 @@ CONSTANTS Steps, MaxScript
 VARIABLES script, cset, ps
 INSTANCE Parser
 
-VARIABLES l, bad, cnt
-tvars == <<script, cset, ps, l, bad, cnt>>
+VARIABLES l, bad, cnt, self
+tvars == <<script, cset, ps, l, bad, cnt, self>>
 
 Trace == ndJsonDeserialize("trace.ndjson")
 Reasons == {"not-leading-run", "fields-differ", "contents-differ", "payload-differ", "error-differs",
@@ -110,17 +110,20 @@ Judge(e) ==
           ELSE CHOOSE v \in worst : TRUE
 
 TInit == /\ script = <<>> /\ cset = {} /\ ps = PInit
-         /\ l = 1 /\ bad = <<>> /\ cnt = [x \in Reasons |-> 0]
+         /\ l = 1 /\ bad = <<>> /\ cnt = [x \in Reasons |-> 0] /\ self = <<>>
 
 Step == /\ l <= Len(Trace)
         /\ l' = l + 1
         /\ UNCHANGED <<script, cset, ps>>
         /\ LET e == Trace[l]
                v == Judge(e)
-           IN IF v[1] = "ok" THEN UNCHANGED <<bad, cnt>>
+           IN IF e.sc < 0      \* binding self-test events appended by the check: reported apart, never counted
+              THEN self' = Append(self, [line |-> l, sc |-> e.sc, reason |-> v[1]]) /\ UNCHANGED <<bad, cnt>>
+              ELSE IF v[1] = "ok" THEN UNCHANGED <<bad, cnt, self>>
               ELSE /\ bad' = Note(bad, [sc |-> e.sc, line |-> l, op |-> e.op, reason |-> v[1], where |-> v[2], after |-> v[3]])
                    /\ cnt' = IF v[1] \in Reasons THEN [cnt EXCEPT ![v[1]] = @ + 1] ELSE cnt
+                   /\ UNCHANGED self
 
 TSpec == TInit /\ [][Step]_tvars
-Done == l = Len(Trace) + 1 => PrintT("VERDICT " \o ToJson([lines |-> Len(Trace), bad |-> bad, cnt |-> cnt]))
+Done == l = Len(Trace) + 1 => PrintT("VERDICT " \o ToJson([lines |-> Len(Trace), bad |-> bad, cnt |-> cnt, self |-> self]))
 =============================================================================
